@@ -166,8 +166,10 @@ func (sll *LinuxSLL2) DecodeFromBytes(data []byte, df gopacket.DecodeFeedback) e
 	sll.ARPHardwareType = ARPHardwareType(binary.BigEndian.Uint16(data[8:10]))
 	sll.PacketType = LinuxSLL2PacketType(data[10])
 	sll.AddrLength = data[11]
-	sll.Addr = data[12:20]
-	sll.Addr = sll.Addr[:sll.AddrLength]
+	if 12+int(sll.AddrLength) > len(data) {
+		return errors.New("Linux SLL2 address length exceeds packet size")
+	}
+	sll.Addr = data[12 : 12+int(sll.AddrLength)]
 	sll.BaseLayer = BaseLayer{data[:20], data[20:]}
 
 	return nil
